@@ -76,6 +76,9 @@ class _SoI:
                 soi = self._soi(orb)
                 if soi != current:
                     break
+            else:
+                # The requested range is exhausted without change of sphere of influence
+                break
 
             start = orb.date
 
@@ -213,6 +216,9 @@ class SoINumerical(_SoI, KeplerNum):
                 soi = self._soi(orb)
                 if soi != current:
                     break
+            else:
+                # The requested range is exhausted without change of sphere of influence
+                break
 
             start = orb.date
 
